@@ -242,13 +242,14 @@ def resumable(nw=2, n=2, retry_max=3, fail_until=1, delay=0):
     """Order-insensitive deterministic workflow for C12/C13: every step records its input in the state store
     (idempotent: key derived from the input), the final result is a constant."""
     return {"timeout": None, "steps": {
+        # a sends at its very end (no suspension between the sends and its completion), so re-executing an in-flight
+        # a after a resume does not duplicate events; c's result and the store do not depend on completion order
         "a": {"accepts": ["Start"], "nw": 1,
-              "body": [{"op": "send", "ty": "A", "n": n}, G, {"op": "store_set", "key": "uid"}, {"op": "none"}]},
+              "body": [G, {"op": "store_set", "key": "uid"}, {"op": "send", "ty": "A", "n": n}, {"op": "none"}]},
         "b": {"accepts": ["A"], "nw": nw, "retry": {"max": retry_max, "wait": ["fixed", delay]},
               "body": [G, {"op": "fail", "until": fail_until}, {"op": "store_set", "key": "uid"}, {"op": "ret", "ty": "B"}]},
         "c": {"accepts": ["B"], "nw": 1,
-              "body": [G, {"op": "collect", "expected": ["B"] * n}, {"op": "store_set", "key": "uid"},
-                       {"op": "stop", "result": "done"}]},
+              "body": [G, {"op": "collect", "expected": ["B"] * n}, {"op": "stop", "result": "done"}]},
     }}
 
 
